@@ -231,7 +231,8 @@ Record iobs := mkIobs {
   ib_cls : cls;
   ib_left : ileft;
   ib_gets : list cls;
-  ib_merge : option (cls * ileft * list cls)
+  ib_merge : option (cls * ileft * list cls);
+  ib_search : option (cls * nat * nat)     (* search.Index.AddRepo: class, entries for all=false / all=true *)
 }.
 
 Definition entry_ver (e : centry) : string :=
@@ -243,6 +244,21 @@ Fixpoint kv_insert {A : Type} (x : string * A) (l : list (string * A)) : list (s
   | y :: t => if str_ltb (fst y) (fst x) then y :: kv_insert x t else x :: l
   end.
 Definition kv_sort {A : Type} (l : list (string * A)) : list (string * A) := fold_right kv_insert [] l.
+
+Fixpoint nodup_str (l : list string) : list string :=
+  match l with
+  | [] => []
+  | x :: t => if mem_str x t then nodup_str t else x :: nodup_str t
+  end.
+
+(* AddRepo twice (newest only / all versions): the number of keys in the search index *)
+Definition search_of (idx : rawindex) : cls * nat * nat :=
+  match add_repo (fun l => l) true (fun _ => false) false "repo" idx,
+        add_repo (fun l => l) true (fun _ => false) true "repo" idx with
+  | Ok k1, Ok k2 => (COk, List.length (nodup_str k1), List.length (nodup_str k2))
+  | Panic _, _ | _, Panic _ => (CPanic, 0, 0)
+  | _, _ => (CErr, 0, 0)
+  end.
 
 Definition left_of (idx : rawindex) : ileft :=
   kv_sort (map (fun ne => (fst ne, str_sort (map entry_ver (snd ne)))) (entries_of idx)).
@@ -277,11 +293,11 @@ Section IndexRun.
                      end
                  end in
         match m with
-        | Ok mo => mkIobs COk (left_of idx) (map (io_get idx) qs) mo
-        | _ => mkIobs CPanic (left_of idx) (map (io_get idx) qs) None
+        | Ok mo => mkIobs COk (left_of idx) (map (io_get idx) qs) mo (Some (search_of idx))
+        | _ => mkIobs CPanic (left_of idx) (map (io_get idx) qs) None (Some (search_of idx))
         end
-    | Err => mkIobs CErr [] [] None
-    | Panic _ => mkIobs CPanic [] [] None
+    | Err => mkIobs CErr [] [] None None
+    | Panic _ => mkIobs CPanic [] [] None None
     end.
 End IndexRun.
 
@@ -294,6 +310,11 @@ Definition iobs_eqb (a b : iobs) : bool :=
   match ib_merge a, ib_merge b with
   | None, None => true
   | Some (c1, l1, g1), Some (c2, l2, g2) => cls_eqb c1 c2 && ileft_eqb l1 l2 && list_eqb cls_eqb g1 g2
+  | _, _ => false
+  end &&
+  match ib_search a, ib_search b with
+  | None, None => true
+  | Some (c1, n1, m1), Some (c2, n2, m2) => cls_eqb c1 c2 && Nat.eqb n1 n2 && Nat.eqb m1 m2
   | _, _ => false
   end.
 
